@@ -40,6 +40,28 @@ CHECKS = {
             "after every begin, no worker pid alive after the context, exit never quiescent.",
             "Fault positions enumerated: begin of worker k / of a replacement worker, functor at 3 item positions; "
             "fault runs assert lifecycle facts only.", "DESIGN.md §5 C04"),
+    "C05": ("exploration", "yield-history checker (call-tagged unique items) + quiescence oracle on real FunctorMap / mul_p_map "
+            "executions; designated chunk arrival orders via per-item delays; LINE-hook delay sweep in parent and "
+            "forked workers",
+            "Sequences of fully consumed calls on one FunctorMap and repeated mul_p_map calls in one process, inputs of "
+            "length 0/1/<workers/up to 60, each case swept with one delay per executed statement; every returned "
+            "sequence must equal [f(x)] of its own call and the process tree must never become quiescent unfinished.",
+            "Fork start method only. Observation of executions, see C01/C02.", "DESIGN.md §5 C05"),
+    "C14": ("exploration", "offline read/store history checker over a cross-process event log with one logical clock (unique "
+            "texts) + final-state checks at the quiescent point + flush/re-use; LINE-hook delay sweep in writer, reader "
+            "and parent roles; quiescence oracle",
+            "Forked writers with hostile id assignments, forked readers and the parent polling while writers run; every "
+            "read is justified against the stores called/returned before it; len/is_contiguous/iteration/every id "
+            "after the writers joined; flush and re-use.",
+            "Trusted: the shared-counter clock (call logged before, return after). Texts are single lines.",
+            "DESIGN.md §5 C14"),
+    "C18": ("exploration", "value oracle on every read of every forked process with delays injected between seek and read + "
+            "strace -f descriptor-ownership checker (lseek/read on the data file through an inherited descriptor)",
+            "One object opened in the parent and read concurrently by children, grandchildren and the parent; the value "
+            "oracle sees wrong lines, the system-call oracle sees the cause (shared open file description) even when "
+            "timing hides the symptom.",
+            "strace/ptrace available in the sandbox; memory-mapped reads are invisible to the syscall oracle (and have "
+            "a per-process position).", "DESIGN.md §5 C18"),
     "C06": ("exploration", "reference-model monitor (recency-ordered dict) after every operation of seeded histories + "
             "statement-budget progress oracle via sys.monitoring",
             "Every operation of thousands of generated histories is compared with an ordered-dict model (result, "
